@@ -71,3 +71,42 @@ fn despawn_tracker_reports_once()
     assert!(rx.try_recv().is_err(), "C08: exactly once");
     kani::cover!(true, "end of harness reached");
 }
+
+/// C08 / C07: however a watched entity goes away - despawned directly, or taken down by a recursive despawn of its parent -
+/// the world drops its tracker and its entity-scoped reactor table: the despawn is reported exactly once, for that entity,
+/// and the ref-counted reactor whose only registration lived on that entity is released to the collector exactly once;
+/// an unrelated watched entity reports nothing.
+fn watched_entity_goes_away(via_parent: bool)
+{
+    let mut world = World::new();
+    world.m_drop_table::<(DespawnTracker, EntityReactors, bevy::hierarchy::Parent, bevy::hierarchy::Children)>();
+    let (tx, rx) = crossbeam::channel::unbounded::<Entity>();
+    let despawner = crate::ecs::auto_despawn::verif_h::mk_despawner();
+    let reactor = SystemCommand(ent(40));
+    let parent = world.spawn_empty().id();
+    let watched = world.spawn_empty().id();
+    let bystander = world.spawn_empty().id();
+    bevy::hierarchy::m_link(&mut world, parent, watched);
+    let mut table = EntityReactors::default();
+    table.insert(EntityReactionType::Mutation(core::any::TypeId::of::<u8>()), crate::react::react_commands::verif_h::cleanup_handle(&despawner, reactor));
+    world.m_insert_component(watched, table);
+    world.m_insert_component(watched, DespawnTracker{ parent: watched, notifier: tx.clone() });
+    world.m_insert_component(bystander, DespawnTracker{ parent: bystander, notifier: tx.clone() });
+    assert!(rx.try_recv().is_err() && despawner.try_recv().is_none());
+    if via_parent { world.entity_mut(parent).despawn_recursive(); } else { world.despawn(watched); }
+    assert!(!world.m_alive(watched) && world.m_alive(bystander));
+    assert!(rx.try_recv() == Ok(watched) && rx.try_recv().is_err(), "C08: the despawn - direct or through the parent - is reported exactly once, for the watched entity only");
+    assert!(despawner.try_recv() == Some(*reactor) && despawner.try_recv().is_none(), "C07: a ref-counted reactor whose last registration lived on the despawned entity is released exactly once");
+    kani::cover!(true, "end of harness reached");
+    std::mem::forget(world);
+}
+#[kani::proof]
+#[kani::stub(core::any::TypeId::of, crate::vh::stub_typeid_of)]
+#[kani::stub(<core::any::TypeId as crate::vh::PEq>::eq, crate::vh::stub_typeid_eq)]
+#[kani::unwind(5)]
+fn watched_entity_despawned_directly() { watched_entity_goes_away(false) }
+#[kani::proof]
+#[kani::stub(core::any::TypeId::of, crate::vh::stub_typeid_of)]
+#[kani::stub(<core::any::TypeId as crate::vh::PEq>::eq, crate::vh::stub_typeid_eq)]
+#[kani::unwind(5)]
+fn watched_entity_despawned_with_its_parent() { watched_entity_goes_away(true) }
